@@ -1,7 +1,7 @@
 (* Props/C20.v — shellcheck/pyflakes integration loses nothing and bounds
    concurrency.  Only statements; every proof is [exact <lemma>]. *)
-From AL Require Import Base.Str Proc.Sanitize Proc.ShellSel Proc.ExecOutcome Proc.ProcModel.
-From Coq Require Import ZArith.
+From AL Require Import Base.Str Proc.Sanitize Proc.ShellSel Proc.ExecOutcome Proc.ProcModel Proc.ProcProofs Proc.ProcExamples.
+From Coq Require Import ZArith Permutation.
 
 (* ---- placeholder replacement (sanitizeExpressionsInScript) ---- *)
 
@@ -84,3 +84,46 @@ Theorem C20_failure_patterns_fatal : forall f i js,
   (forall code out, i_rule i = SC -> callback f i (OSExit code out) JBad = CErr).
 Proof. exact failure_patterns_fatal. Qed.
 Print Assumptions C20_failure_patterns_fatal.
+
+(* ---- the protocol: transition system ProcModel, all interleavings ---- *)
+
+(* in every reachable state at most [cap] invocations hold a semaphore slot
+   (a tool process runs only while its invocation holds one) *)
+Theorem C20_running_bounded : forall cap wfs tr st,
+  exec cap wfs tr = Some st -> running st <= cap.
+Proof. exact running_bounded. Qed.
+Print Assumptions C20_running_bounded.
+
+(* when Lint* has returned every invocation ever started is done *)
+Theorem C20_all_collected : forall cap wfs tr st fatal,
+  exec cap wfs tr = Some st -> s_main st = MReturned fatal ->
+  forall x, In x (s_tasks st) -> t_phase x = PDone.
+Proof. exact all_collected. Qed.
+Print Assumptions C20_all_collected.
+
+(* no wg.Add after the start of wg.Wait ("proc.wait() must be called after eg.Wait()") *)
+Theorem C20_wg_add_before_wait : forall cap wfs pre post st,
+  exec cap wfs (pre ++ EPwEnter :: post) = Some st -> forall f i, ~ In (ESpawn f i) post.
+Proof. exact wg_add_before_wait. Qed.
+Print Assumptions C20_wg_add_before_wait.
+
+(* on return: fatal error iff some invocation failed; otherwise the
+   diagnostics are exactly the issues of all invocations, each once, each at
+   the run: position of its step *)
+Theorem C20_no_lost_output : forall cap wfs tr st fatal,
+  exec cap wfs tr = Some st -> s_main st = MReturned fatal ->
+  (fatal = true <-> exists x, In x (s_tasks st) /\ t_cb x = CErr) /\
+  (fatal = false -> Permutation (returned_diags st) (flat_map (fun x => cb_diags (t_cb x)) (s_tasks st))) /\
+  (forall x d, In x (s_tasks st) -> In d (cb_diags (t_cb x)) ->
+     d_pos d = i_pos (t_inv x) /\ d_file d = t_file x /\ d_rule d = i_rule (t_inv x)).
+Proof. exact no_lost_output. Qed.
+Print Assumptions C20_no_lost_output.
+
+(* LintFiles as found (return before proc.wait() on the fatal-error path)
+   violates all_collected; kept as documentation of the repaired defect *)
+Theorem C20_all_collected_old_refuted :
+  exists cap wfs tr st x,
+    exec_old cap wfs tr = Some st /\ s_main st = MReturned true /\
+    In x (s_tasks st) /\ t_phase x <> PDone.
+Proof. exact all_collected_old_refuted. Qed.
+Print Assumptions C20_all_collected_old_refuted.
